@@ -253,7 +253,10 @@ func vfC05Unit(e *vfEnv, r *vfResult, idx int, local, remote uint64, agentContro
 	s := newVfSession(e, r, idx, "c05unit")
 	defer s.closeAll()
 	s.desc["local_tiebreaker"], s.desc["remote_tiebreaker"], s.desc["agent_controlling"] = fmt.Sprint(local), fmt.Sprint(remote), agentControlling
-	if err := s.setupAgentVsPeer(vfSideCfg{MaxBinding: 1000, TieBreaker: local}, agentControlling, 1, 1, true); err != nil {
+	// one case in three: the sender's address was never signalled (a check that overtakes trickling, or a peer behind a NAT)
+	told := afterSelection || idx%3 != 2
+	s.desc["sender_address_signalled"] = told
+	if err := s.setupAgentVsPeer(vfSideCfg{MaxBinding: 1000, TieBreaker: local}, agentControlling, 1, 1, told); err != nil {
 		r.inconclusive(1)
 
 		return
@@ -307,7 +310,7 @@ func vfC05Unit(e *vfEnv, r *vfResult, idx int, local, remote uint64, agentContro
 	}
 	kept := after.Controlling == agentControlling
 	wit := map[string]any{"local": fmt.Sprint(local), "remote": fmt.Sprint(remote), "agent_controlling": agentControlling}
-	cls := fmt.Sprintf("%s/keep=%v/after-selection=%v", role, wantKeep, afterSelection)
+	cls := fmt.Sprintf("%s/keep=%v/after-selection=%v/sender-signalled=%v", role, wantKeep, afterSelection, told)
 	r.sample(map[string]any{"kind": "same-role request", "agent_role": role, "local_tiebreaker": fmt.Sprint(local), "remote_tiebreaker": fmt.Sprint(remote),
 		"after_selection": afterSelection, "expected_keep_and_487": wantKeep, "observed_kept": kept, "observed_487": gotErr487})
 	r.set("c05_cases", cls)
@@ -396,6 +399,24 @@ func vfC05System(e *vfEnv, r *vfResult, idx int) {
 
 		return
 	}
+	// one start in three: one side is never told the other's candidates and learns them as peer-reflexive only, so
+	// every conflicting request it receives comes from an address it does not know yet
+	oneWay := ""
+	if s.rng.IntN(3) == 0 {
+		deaf := s.A
+		if s.rng.IntN(2) == 0 {
+			deaf = s.B
+		}
+		oneWay = deaf.name
+		var kept []vfPendingSignal
+		for _, p := range pending {
+			if p.to != deaf {
+				kept = append(kept, p)
+			}
+		}
+		pending = kept
+	}
+	s.desc["never_told_side"] = oneWay
 	budget := map[*vfSide]int{s.A: 30, s.B: 30}
 	s.chaos(s.rng.IntN(150), budget, &pending, true)
 	rounds := s.fairSuffix(&pending, 16, func() bool { ok, _ := s.bothConnectedMirror(); return ok && len(s.sw.inflightIDs()) == 0 })
@@ -413,7 +434,7 @@ func vfC05System(e *vfEnv, r *vfResult, idx int) {
 		return
 	}
 	sa, sb := s.A.snapshot(), s.B.snapshot()
-	r.distinct(fmt.Sprintf("sys/both=%v/a>b=%v/adjacent=%v/a=%d/b=%d", bothControlling, ta > tb, ta-tb == 1 || tb-ta == 1, len(t.AIPs), len(t.BIPs)))
+	r.distinct(fmt.Sprintf("sys/both=%v/a>b=%v/adjacent=%v/a=%d/b=%d/nevertold=%s", bothControlling, ta > tb, ta-tb == 1 || tb-ta == 1, len(t.AIPs), len(t.BIPs), oneWay))
 	if sa.Controlling == sb.Controlling {
 		s.viol("C05", "same-role-after-conflict", fmt.Sprintf("both agents started %v-controlling with tie-breakers %d / %d and still have the same role after the fair suffix", bothControlling, ta, tb), nil)
 
